@@ -20,6 +20,7 @@ import (
 	"sort"
 	"strings"
 	"sync"
+	"sync/atomic"
 	"testing"
 	"time"
 
@@ -1081,4 +1082,127 @@ func TestVerifTouchTCP(t *testing.T) {
 		conn.Close()
 	}
 	fmt.Printf("TOUCHTCP-OK cases=%d\n", okCount)
+}
+
+// ---------------------------------------------------------------------------------------------
+// TestVerifScanLoop: the REAL queueScanLoop / queueScanWorker of a running daemon (short scan
+// interval) with one busy channel among idle ones: a consumer that never answers lets a steady
+// stream of in-flight messages time out (every scan finds expired in-flight work on that channel)
+// while a message requeued with delay d and a message deferred by d wait on the same channel.
+// Boundedly late: each must come back once it is due. The oracle is generous and load-independent:
+// it fails only if the message is still parked after d + max(10 scan intervals, 1.5 s) AND the scan
+// loop has demonstrably kept scanning that channel meanwhile (>= 10 more rounds of in-flight
+// timeouts released after the due time). Early-side jitter never fails here.
+func TestVerifScanLoop(t *testing.T) {
+	opts := NewOptions()
+	opts.Logger = nil
+	opts.LogLevel = LOG_FATAL
+	opts.DataPath = t.TempDir()
+	opts.MemQueueSize = 1000
+	opts.QueueScanInterval = 25 * time.Millisecond
+	opts.QueueScanRefreshInterval = 50 * time.Millisecond
+	_, _, nsqd := mustStartNSQD(opts)
+	defer nsqd.Exit()
+	defer vfE1PanicGuard("the scan-loop scenario", nil)()
+	r := vfNewRand(79)
+	idle := 3 + r.Intn(5) // 4..8 channels in all: one dirty channel stays <= 25 %, no immediate rescan
+	busy := nsqd.GetTopic("vf_scan_busy").GetChannel("busy")
+	for i := 0; i < idle; i++ {
+		nsqd.GetTopic(fmt.Sprintf("vf_scan_idle_%d", i)).GetChannel("idle")
+	}
+	time.Sleep(150 * time.Millisecond) // let the scan loop refresh its channel list
+	const streamN = 10
+	streamTimeout := time.Duration(10+r.Intn(8)) * time.Millisecond // < scan interval: expired at every scan
+	d := time.Duration(100+r.Intn(150)) * time.Millisecond
+	type arrival struct {
+		id int
+		at time.Time
+	}
+	arrivals := make(chan arrival, 16)
+	stop := make(chan struct{})
+	var wg sync.WaitGroup
+	wg.Add(1)
+	go func() { // the consumer that never answers
+		defer wg.Done()
+		for {
+			select {
+			case m := <-busy.memoryMsgChan:
+				id := vfE1IDNum(m.ID)
+				if id >= 1000 {
+					arrivals <- arrival{id, time.Now()}
+					continue
+				}
+				busy.StartInFlightTimeout(m, 1, streamTimeout)
+			case <-stop:
+				return
+			}
+		}
+	}()
+	for i := 1; i <= streamN; i++ {
+		busy.PutMessage(&Message{ID: vfE1MsgID(i), Body: []byte("stream")})
+	}
+	time.Sleep(3 * opts.QueueScanInterval) // the stream is cycling
+	// (a) REQ with delay d  (b) deferred publish with delay d, both on the busy channel
+	reqMsg := &Message{ID: vfE1MsgID(1001), Body: []byte("requeued")}
+	busy.StartInFlightTimeout(reqMsg, 2, 10*time.Minute)
+	t0 := time.Now()
+	if err := busy.RequeueMessage(2, reqMsg.ID, d); err != nil {
+		t.Fatal(err)
+	}
+	busy.PutMessageDeferred(&Message{ID: vfE1MsgID(1002), Body: []byte("deferred")}, d)
+	due := t0.Add(d)
+	grace := 10 * opts.QueueScanInterval
+	if grace < 1500*time.Millisecond {
+		grace = 1500 * time.Millisecond
+	}
+	got := map[int]time.Time{}
+	var countAtDue uint64
+	dueSeen := false
+	hardStop := time.Now().Add(20 * time.Second)
+	verdict := ""
+	for len(got) < 2 && verdict == "" {
+		select {
+		case a := <-arrivals:
+			got[a.id] = a.at
+		case <-time.After(5 * time.Millisecond):
+		}
+		now := time.Now()
+		if !dueSeen && !now.Before(due) {
+			dueSeen = true
+			countAtDue = atomic.LoadUint64(&busy.timeoutCount)
+		}
+		if dueSeen && now.After(due.Add(grace)) {
+			rounds := (atomic.LoadUint64(&busy.timeoutCount) - countAtDue) / streamN
+			if rounds >= 10 {
+				verdict = "late"
+			} else if now.After(hardStop) {
+				verdict = "inconclusive"
+			}
+		}
+	}
+	close(stop)
+	wg.Wait()
+	scenario := fmt.Sprintf("scan interval %v, 1 busy + %d idle channels, %d in-flight messages timing out every %v on the busy channel, REQ delay / defer %v",
+		opts.QueueScanInterval, idle, streamN, streamTimeout, d)
+	switch verdict {
+	case "late":
+		rounds := (atomic.LoadUint64(&busy.timeoutCount) - countAtDue) / streamN
+		for id, name := range map[int]string{1001: "the message requeued with delay", 1002: "the message deferred by"} {
+			if _, ok := got[id]; !ok {
+				fmt.Printf("ORACLE-FAIL STARVED: %s %v is still parked %v after it was due, although the scan loop released in-flight timeouts of the same channel in about %d scans since then (%s)\n",
+					name, d, time.Since(due).Round(time.Millisecond), rounds, scenario)
+			}
+		}
+		t.Fail()
+	case "inconclusive":
+		fmt.Printf("SCANLOOP-INCONCLUSIVE the scan loop made too little progress to judge (%s)\n", scenario)
+	default:
+		worst := time.Duration(0)
+		for _, at := range got {
+			if l := at.Sub(due); l > worst {
+				worst = l
+			}
+		}
+		fmt.Printf("SCANLOOP-OK lateness=%v timeouts=%d (%s)\n", worst.Round(time.Millisecond), atomic.LoadUint64(&busy.timeoutCount), scenario)
+	}
 }
